@@ -50,6 +50,15 @@ inductive Outs
   | named (ns : List String)
   deriving DecidableEq, Repr
 
+/-- attribute values are carried as canonical text (`i:0`, `f:0.5`, `is:1;2`, `s:…`, `t` for a tensor). -/
+abbrev AVal := String
+
+/-- an attribute of a body node: a value, or a reference to an attribute parameter of the function. -/
+inductive FAttr
+  | val (v : AVal)
+  | ref (param : String)
+  deriving DecidableEq, Repr
+
 /-- a node of a function body, over value *names* local to the body. -/
 structure FNode where
   name : String
@@ -57,6 +66,7 @@ structure FNode where
   op : String
   ins : List (Option String)
   outs : List String
+  attrs : List (String × FAttr)
   deriving DecidableEq, Repr
 
 structure Fn where
@@ -66,15 +76,18 @@ structure Fn where
   formals : List String
   nodes : List FNode
   outputs : List String
+  /-- declared attribute parameters with their default (`none`: required). -/
+  attrParams : List (String × Option AVal)
   deriving DecidableEq, Repr
 
 inductive Item
   | input (name : String)
   | op (opType : String) (args : List Arg) (outs : Outs) (nodeName : Option String) (graphs : List Nat)
+      (attrs : List (String × AVal))
   | push (name : String)
   | pop
-  | call (f : Nat) (args : List Arg) (outs : Option Outs)
-  | inline (f : Nat) (args : List Arg) (outs : Option (List String)) (pfx : String)
+  | call (f : Nat) (args : List Arg) (outs : Option Outs) (attrs : List (String × AVal))
+  | inline (f : Nat) (args : List Arg) (outs : Option (List String)) (pfx : String) (attrs : List (String × AVal))
   | beginSub (gname : String) (inputs : List String)
   | endSub (rets : List Nat) (declared : List String)
   | output (h : Nat) (name : Option String)
@@ -88,6 +101,7 @@ structure Node where
   outs : List Nat
   graphs : List Nat
   overload : String
+  attrs : List (String × AVal)
   deriving DecidableEq, Repr
 
 /-- one `GraphBuilder` with its `ir.Graph`. -/
@@ -148,10 +162,29 @@ def qualifyNode (f : Frame) (n : String) : String :=
 def autoBase (op : String) (count : Nat) : String :=
   if op = "" then toString count else op ++ "_" ++ toString count
 
-def VKey.render : VKey → String
+/-- the rendering with the output index last (`{op}_{count}_{i}`): /repo before the fix C18-D20f. -/
+def VKey.renderOld : VKey → String
   | .raw s => s
   | .auto parts op c none => qualifyParts parts (autoBase op c)
   | .auto parts op c (some i) => qualifyParts parts (autoBase op c ++ "_" ++ toString i)
+
+/-- `"v_"` + the dotted scope + `"."` (what `_qualify_value_name` puts in front of a name). -/
+def qualifyHead (parts : List String) : String :=
+  if parts.isEmpty then "v_" else "v_" ++ joinWith "." parts ++ "."
+
+/-- `"{op}_"` (nothing for an empty op type). -/
+def opHead (op : String) : String := if op = "" then "" else op ++ "_"
+
+/-- the rendering with the node count **last** (`{op}_{count}`, `{op}_{i}_{count}`; proposed fix C18-D20f). -/
+def VKey.renderNew : VKey → String
+  | .raw s => s
+  | .auto parts op c none => qualifyHead parts ++ opHead op ++ toString c
+  | .auto parts op c (some i) => qualifyHead parts ++ opHead op ++ toString i ++ "_" ++ toString c
+
+/-- which order `_adapt_outputs` of the pinned /repo uses for multi-output names (`true`: count last). -/
+def countLast : Bool := true
+
+def VKey.render (k : VKey) : String := if countLast then k.renderNew else k.renderOld
 
 def newValueK (st : St) (k : VKey) : St × Nat :=
   ({ st with vnames := st.vnames ++ [k.render], vkeys := st.vkeys ++ [k] }, st.vnames.length)
@@ -239,15 +272,16 @@ def fail (st : St) (e : String) : St :=
 /-! ## the operations -/
 
 def doOp (total : Bool) (st : St) (opType : String) (args : List Arg) (outs : Outs) (nodeName : Option String)
-    (graphs : List Nat) : St :=
+    (graphs : List Nat) (attrs : List (String × AVal)) : St :=
   let (st1, ins) := resolveArgs st args
   let keys := outKeys st1.cur (nodeCount total st1) opType outs
   let nname := nodeName.getD (autoNodeName st1.cur (nodeCount total st1) opType)
   let (st2, ids) := newValuesK st1 keys
-  let st3 := addNode st2 ⟨nname, "", opType, ins, ids, graphs, ""⟩
+  let st3 := addNode st2 ⟨nname, "", opType, ins, ids, graphs, "", attrs⟩
   { st3 with handles := st3.handles ++ ids.map some }
 
-def doCall (total : Bool) (fns : List Fn) (st : St) (fi : Nat) (args : List Arg) (outs : Option Outs) : St :=
+def doCall (total : Bool) (fns : List Fn) (st : St) (fi : Nat) (args : List Arg) (outs : Option Outs)
+    (attrs : List (String × AVal)) : St :=
   match fns[fi]? with
   | none => fail st "no-such-function"
   | some f =>
@@ -255,7 +289,7 @@ def doCall (total : Bool) (fns : List Fn) (st : St) (fi : Nat) (args : List Arg)
     let (st1, ids) := newValuesK st keys
     let (st2, ins) := resolveArgs st1 args
     let nname := autoNodeName st2.cur (nodeCount total st2) f.name
-    let st3 := addNode st2 ⟨nname, f.domain, f.name, ins, ids, [], f.overload⟩
+    let st3 := addNode st2 ⟨nname, f.domain, f.name, ins, ids, [], f.overload, attrs⟩
     let fid := f.domain ++ ":" ++ f.name ++ ":" ++ f.overload
     { st3 with handles := st3.handles ++ ids.map some,
                funcs := if fid ∈ st3.funcs then st3.funcs else st3.funcs ++ [fid] }
@@ -272,13 +306,45 @@ def mapIn (m : VMap) : Option String → Option Nat
   | some x => vmapGet m x
   | none => none
 
+/-! ### attributes of an inlined body -/
+
+def attrGet (am : List (String × AVal)) (p : String) : Option AVal :=
+  (am.find? (fun e => e.1 = p)).map (·.2)
+
+/-- `Cloner.clone_attr` with `resolve_ref_attrs=True`: a reference attribute takes the mapped value under the
+    node's own attribute name; an unmapped reference is dropped. -/
+def resolveAttr (am : List (String × AVal)) : String × FAttr → Option (String × FAttr)
+  | (k, .val v) => some (k, .val v)
+  | (k, .ref p) => (attrGet am p).map (fun v => (k, .val v))
+
+def resolveNode (am : List (String × AVal)) (n : FNode) : FNode :=
+  { n with attrs := n.attrs.filterMap (resolveAttr am) }
+
+/-- the function with every reference attribute of its body resolved under `am`. -/
+def resolveFn (am : List (String × AVal)) (f : Fn) : Fn :=
+  { f with nodes := f.nodes.map (resolveNode am) }
+
+/-- the attributes a cloned node carries: the (resolved) values. -/
+def plainAttrs (as : List (String × FAttr)) : List (String × AVal) :=
+  as.filterMap (fun e => match e.2 with
+    | .val v => some (e.1, v)
+    | .ref _ => none)
+
+/-- the attribute map `call_inline` hands to the inliner (commit 1ed6700): the passed values, then the declared
+    default of every attribute parameter that was not passed and *has* a default — whatever its value (a default
+    of `0`, `0.0`, `""` or `[]` counts).  Before that commit (`total = false`): the passed values only. -/
+def effectiveAttrs (total : Bool) (f : Fn) (passed : List (String × AVal)) : List (String × AVal) :=
+  passed ++ (if total then
+    f.attrParams.filterMap (fun e => if (attrGet passed e.1).isSome then none else e.2.map (fun v => (e.1, v)))
+  else [])
+
 /-- clone one body node (`Cloner.clone_node` + `rename`): inputs through the value map, fresh outputs
     named `prefix + name`, node name `prefix + name`. -/
 def cloneNode (st : St) (m : VMap) (np : String) (n : FNode) : St × VMap × Node :=
   let ins := n.ins.map (mapIn m)
   let (st1, ids) := newValues st (n.outs.map (fun o => if o = "" then "" else np ++ o))
   let m1 := (n.outs.zip (ids.map some)) ++ m
-  (st1, m1, ⟨if n.name = "" then "" else np ++ n.name, n.domain, n.op, ins, ids, [], ""⟩)
+  (st1, m1, ⟨if n.name = "" then "" else np ++ n.name, n.domain, n.op, ins, ids, [], "", plainAttrs n.attrs⟩)
 
 def cloneNodes (st : St) (m : VMap) (np : String) : List FNode → St × VMap × List Node
   | [] => (st, m, [])
@@ -339,7 +405,7 @@ def inlineRun (total : Bool) (st0 : St) (f : Fn) (actuals : List (Option Nat)) (
   (renameFinals (fun id => !total || produced.contains id) st2 finalsO desired, finalsO)
 
 def doInline (total : Bool) (fns : List Fn) (st : St) (fi : Nat) (args : List Arg) (outs : Option (List String))
-    (pfx : String) : St :=
+    (pfx : String) (attrs : List (String × AVal)) : St :=
   match fns[fi]? with
   | none => fail st "no-such-function"
   | some f =>
@@ -350,7 +416,7 @@ def doInline (total : Bool) (fns : List Fn) (st : St) (fi : Nat) (args : List Ar
     else
       let desired := outs.map (fun o => o.map (qualifyValue st.cur))
       let st0 := if pfx = "" then st else pushScope st pfx
-      let rr := inlineRun total st0 f (resolveArgs st0 args).2 desired
+      let rr := inlineRun total st0 (resolveFn (effectiveAttrs total f attrs) f) (resolveArgs st0 args).2 desired
       let st4 := if pfx = "" then rr.1 else popScope rr.1
       { st4 with handles := st4.handles ++ rr.2 }
 
@@ -385,11 +451,11 @@ def doInput (st : St) (name : String) : St :=
 
 def step (total : Bool) (fns : List Fn) (st : St) : Item → St
   | .input n => doInput st n
-  | .op t a o nn g => doOp total st t a o nn g
+  | .op t a o nn g as => doOp total st t a o nn g as
   | .push n => pushScope st n
   | .pop => popScope st
-  | .call f a o => doCall total fns st f a o
-  | .inline f a o p => doInline total fns st f a o p
+  | .call f a o as => doCall total fns st f a o as
+  | .inline f a o p as => doInline total fns st f a o p as
   | .beginSub g i => doBeginSub st g i
   | .endSub r d => doEndSub st r d
   | .output h n => doOutput st h n
